@@ -283,7 +283,7 @@ int gen_case(rng_t *r, const char *op, const genopt_t *g, sbuf_t *o, int rb, int
     int m = gen_dim(r, D > 100 ? 100 : D), n = gen_dim(r, D);
     int cnts[] = { 63, 64, 65, 70, 130, 200, 3, 1030 };
     emit_mat(r, o, rb, m, n, NULL, 0);
-    sb_printf(o, "op window_burst %d %d\n", rb, cnts[rng_below(r, D >= 400 ? 8 : 7)]);
+    sb_printf(o, "op window_burst %d %d\n", rb, cnts[rng_below(r, 8)]);
     return 1;
   }
   if (IS("to_png") || IS("from_png")) { /* write (and read back) through the simulated file layer */
